@@ -201,7 +201,7 @@ def slice_and_tuple_scenarios(ctx, out):
         hist = []
         bad = None
         for step in range(rng.randrange(3, 10)):
-            k = rng.choice(['slice', 'slice', 'append', 'extend', 'pt', 'pts-append', 'pts-remove', 'pts-extend', 'pop'])
+            k = rng.choice(['slice', 'slice', 'append', 'extend', 'pt', 'pts-append', 'pts-remove', 'pts-extend', 'pop', 'bad-batch', 'bad-batch'])
             try:
                 if k == 'slice':
                     L = a.ints
@@ -237,6 +237,22 @@ def slice_and_tuple_scenarios(ctx, out):
                     vals = [rng.choice([(1, 2), (7,), (8, 9)]) for _ in range(rng.randrange(1, 3))]
                     a.pts.extend(vals)
                     hist.append(['pts.extend', repr(vals)])
+                elif k == 'bad-batch':
+                    # a batch whose LATER value is outside the type: refused as a whole, nothing stored, nothing reported
+                    which = rng.choice(['ints', 'pts'])
+                    vals = ([rng.randrange(5), rng.randrange(5), 'x'] if which == 'ints' else [(9, 9), (8,), 'x'])
+                    how = rng.choice(['extend', 'iadd', 'assign'])
+                    try:
+                        c = a.eGet(which)
+                        if how == 'extend':
+                            c.extend(vals)
+                        elif how == 'iadd':
+                            c += vals
+                        else:
+                            setattr(a, which, list(c) + vals)
+                        hist.append([which + '.' + how, repr(vals), 'accepted'])
+                    except E.BadValueError:
+                        hist.append([which + '.' + how, repr(vals), 'BadValueError'])
                 elif k == 'pts-remove' and len(a.pts):
                     v = rng.choice(list(a.pts))
                     a.pts.remove(v)
